@@ -50,6 +50,10 @@ func c08World(k, i int64) *ref.World {
 		f.Arr = []int64{1, 2, 3}
 	}
 	f.B = k >= 10
+	if k%2 == 0 {
+		zero := int64(0)
+		f.PI = &zero // the selector of rule psel: a valid index for even selectors, a nil pointer otherwise
+	}
 	if k == 77 {
 		// the "clock" set: this fact is a little older than the moment of the call, and younger than every
 		// earlier call of the history (the harness pauses 2 ms before each such call)
@@ -112,6 +116,7 @@ var c08Sets = []c08Set{
 			grl.R("por", nil, `(F.M["k"] > 1) || F.I2 == 7`, "F.I2 = F.I2 + 1", `Retract("por")`),
 			grl.R("pand", grl.Sal(2), `(F.M["k"] > 1) && F.B`, "F.I = F.I + 10", `Retract("pand")`),
 			grl.R("walk", grl.Sal(-1), "F.Arr[F.I] > 0 && F.I < 4", "F.I = F.I + 1"),
+			grl.R("psel", grl.Sal(-2), "F.Arr[F.PI] > 0 && F.I2 < 100", "F.I2 = F.I2 + 100", `Retract("psel")`),
 		}
 	}, []c08Call{
 		{"exec-key-present", false, 0, 0, 10, 0}, {"exec-key-missing", false, 1, 0, 10, 0}, {"exec-key-present-long-slice", false, 10, 0, 10, 0}, {"exec-key-missing-long-slice", false, 11, 0, 10, 0},
